@@ -96,7 +96,10 @@ impl Drop for Output {
         let _ = match self {
             Output::StdOut => Ok(()),
             Output::Named(target) => std::fs::remove_file(target),
-            Output::InPlace(target) => std::fs::remove_file(target),
+            // The in-place output is the same file as the input. If it is a temporary copy,
+            // it gets removed together with the input; if it is the original file
+            // (`--no-copy`), it must never be removed.
+            Output::InPlace(_) => Ok(()),
         };
     }
 }
